@@ -99,6 +99,18 @@ def main():
     for n, v in aud.items():
         if not v["ok"] and ("theorem:" + n) not in broken:
             broken.append("theorem:%s (axioms=%s)" % (n, v["axioms"]))
+    # 3b. thorough: independent re-check of the compiled theorem modules
+    leanchecker = None
+    if args.tier == "thorough" and not th_failed:
+        import subprocess
+        try:
+            r = subprocess.run(["lake", "env", "leanchecker"] + list(mod.TARGETS), cwd=vlib.LEAN, capture_output=True,
+                               text=True, timeout=3000)
+            leanchecker = {"rc": r.returncode, "tail": (r.stdout + r.stderr)[-500:]}
+            if r.returncode != 0:
+                broken.append("leanchecker")
+        except subprocess.TimeoutExpired:
+            leanchecker = {"rc": None, "tail": "timeout"}
     # 4. correspondence
     corr_error = None
     if driver_ok:
@@ -156,6 +168,7 @@ def main():
             "oracle_failures": ctx.failures[:20],
             "known_findings_observed": sorted(seen_listed),
             "broken": broken, "translator": {"ok": rep.get("ok"), "errors": rep.get("errors"), "changed": rep.get("changed")},
+            "leanchecker": leanchecker,
             "notes": ctx.notes, **ctx.extra,
         },
         "assumptions": list(getattr(mod, "ASSUMPTIONS", [])),
